@@ -1324,6 +1324,7 @@ class AnyPayloadDecoder(AbstractSimplePayloadDecoder):
                 LOG('decoding as untagged ANY, header substrate %s' % debug.hexdump(chunk))
 
         # Any components do not inherit initial tag
+        outerSpec = asn1Spec
         asn1Spec = self.protoComponent
 
         if substrateFun and substrateFun is not self.substrateCollector:
@@ -1338,6 +1339,9 @@ class AnyPayloadDecoder(AbstractSimplePayloadDecoder):
 
         if LOG:
             LOG('assembling constructed serialization')
+
+        # inner fragment of another ANY being assembled: hand over raw octets
+        isFragment = substrateFun is self.substrateCollector
 
         # All inner fragments are of the same type, treat them as octet string
         substrateFun = self.substrateCollector
@@ -1359,11 +1363,15 @@ class AnyPayloadDecoder(AbstractSimplePayloadDecoder):
 
             chunk += component
 
-        if substrateFun:
-            yield chunk  # TODO: Weird
+        if not isTagged:
+            # untagged ANY holds the complete serialization
+            chunk += EOO_SENTINEL
+
+        if isFragment:
+            yield chunk
 
         else:
-            yield self._createComponent(asn1Spec, tagSet, chunk, **options)
+            yield self._createComponent(outerSpec, tagSet, chunk, **options)
 
 
 # character string types
